@@ -45,6 +45,27 @@ Theorem C14_wal_entry_stamp_unprotected : forall (crc : bytes -> N) e ts' rest,
 Proof. exact WalProofs.decode_stamp_replaced. Qed.
 Print Assumptions C14_wal_entry_stamp_unprotected.
 
+(* KNOWN FINDING C14-wal-zero-header-is-an-entry: for every checksum function that maps the
+   empty string to 0 (CRC-32 does), a header whose length and checksum fields are zero - in
+   particular sixteen zero bytes - decodes as an (empty) entry: a zero-filled region at an
+   entry boundary yields entries that were never appended. *)
+Theorem C14_wal_zero_header_is_an_entry : forall (crc : bytes -> N), crc [] = 0 ->
+  (forall ts rest, ts < U64 ->
+     decode_entry crc (entry_header 0 ts 0 ++ rest) = Ok (Some (Entry ts [] 0, 16))) /\
+  (forall rest, decode_entry crc (repeat 0 16 ++ rest) = Ok (Some (Entry 0 [] 0, 16))).
+Proof.
+  intros crc H0.
+  exact (conj (fun ts rest Hts => WalProofs.decode_empty_header crc ts rest Hts H0)
+              (fun rest => WalProofs.decode_zero_header crc rest H0)).
+Qed.
+Print Assumptions C14_wal_zero_header_is_an_entry.
+
+Example C14_wal_zero_tail_read_as_entries :
+  crc32 [] = 0 /\
+  wal_read crc32 (file_image 1 [] ++ repeat 0 32) = Ok (1, [Entry 0 [] 0; Entry 0 [] 0]).
+Proof. exact (conj crc32_empty WalProofs.zero_tail_witness). Qed.
+Print Assumptions C14_wal_zero_tail_read_as_entries.
+
 (* ---------------- segment ---------------- *)
 (* all batches of >= 1 records, arbitrary binary payloads, all stamps *)
 Theorem C14_segment_roundtrip : forall (crc : bytes -> N) (deser_ok : bytes -> bool),
